@@ -708,6 +708,22 @@ def check_palette(ctx: Ctx, entries, colors, bright, order):
         if g3[0] != "c" or g3[1] not in fgs or g3[2] != ebg or g3[3] != eflags:
             ctx.violation("sgr-decodes", f"C17/sgr-decodes/incremental/{feat}", dict(case0, name=name, frames=3),
                           f"after an incremental update the cell carrying {name!r} shows {g3[0]!r} fg={g3[1]} bg={g3[2]} flags={sorted(g3[3])}")
+        # the bottom-right cell alone in its attribute run: urwid writes it one column early and inserts its left neighbour
+        try:
+            scr.clear()
+            term = Term(cols, 1)
+            scr.draw_screen((cols, 1), TextCanvas([b"wxyz"[:cols].ljust(cols, b"q")], [[(None, cols - 1), (name, 1)]], maxcol=cols))
+            term.feed(out.take())
+        except Exception as e:
+            ctx.violation("draw-raises", f"C17/draw-raises/{exc_site(e)}", dict(case0, name=name, frames="last-cell"), f"draw_screen with {name!r} on the last cell raised {type(e).__name__}: {e}")
+            continue
+        gy, gz = term.g[0][cols - 2], term.g[0][cols - 1]
+        if gy[1:] != (None, None, frozenset()):
+            ctx.violation("sgr-decodes", f"C17/sgr-decodes/leak/last-row-insert/{feat}", dict(case0, name=name, frames="last-cell"),
+                          f"the unattributed cell left of the bottom-right cell ({name!r}) shows {gy[0]!r} fg={gy[1]} bg={gy[2]} flags={sorted(gy[3])}")
+        if gz[1] not in fgs or gz[2] != ebg or gz[3] != eflags:
+            ctx.violation("sgr-decodes", f"C17/sgr-decodes/last-cell/{feat}", dict(case0, name=name, frames="last-cell"),
+                          f"the bottom-right cell carrying {name!r} shows {gz[0]!r} fg={gz[1]} bg={gz[2]} flags={sorted(gz[3])}")
     scr.stop()
 
 
